@@ -377,10 +377,15 @@ Definition view_ok (nbytes : Z) (cd : cdata) : Prop :=
   exists len, c_kind cd = KArr len /\ c_isz cd = S /\ 0 <= len /\
               base <= c_data cd /\ c_data cd + len * S <= base + nbytes.
 
+(* array views lie inside the base allocation; pointer views (results of p+i, p-i, addressof) are
+   unconstrained: they are plain addresses *)
+Definition view_inv (nbytes : Z) (cd : cdata) : Prop :=
+  match c_kind cd with KArr _ => view_ok nbytes cd | KPtr _ => True end.
+
 Definition inv (st : state) : Prop :=
   0 <= base /\ base + Z.of_nat (length (s_mem st)) < 2 ^ 64 /\
   Z.of_nat (length (s_mem st)) < 2 ^ 63 * Z.max S 1 /\
-  Forall (view_ok (Z.of_nat (length (s_mem st)))) (s_views st).
+  Forall (view_inv (Z.of_nat (length (s_mem st)))) (s_views st).
 
 Definition conv_ok (c : conv) : Prop :=
   match c with Ok bs => Z.of_nat (length bs) = S | Err _ => True end.
@@ -391,15 +396,41 @@ Definition source_ok (v : source) : Prop :=
   | _ => True
   end.
 
-(* operations on array views only: index, slice, assignments (no pointer arithmetic) *)
-Definition slice_op (o : op) : Prop :=
-  match o with
-  | OIndexRead _ _ => True
-  | OIndexWrite _ _ c => conv_ok c
-  | OSlice _ _ _ _ => True
-  | OAssSlice _ _ _ _ _ src => source_ok src
-  | _ => False
+(* Histories: ANY operation, pointer arithmetic and addressof included; the only restriction is that
+   memory is reached (index, slice, slice assignment) through ARRAY views — a raw pointer obtained by
+   arithmetic can be dereferenced anywhere, as in C, and is outside the property's bounds claim.
+   The guard is decidable and evaluated along the run. *)
+Definition conv_okb (c : conv) : bool :=
+  match c with Ok bs => Z.of_nat (length bs) =? S | Err _ => true end.
+Definition source_okb (v : source) : bool :=
+  match v with SList items => forallb conv_okb items | _ => true end.
+Definition is_arrb (st : state) (v : nat) : bool :=
+  match nth_error (s_views st) v with
+  | Some cd => match c_kind cd with KArr _ => true | KPtr _ => false end
+  | None => true
   end.
+Definition safe_opb (st : state) (o : op) : bool :=
+  match o with
+  | OIndexRead v _ => is_arrb st v
+  | OIndexWrite v _ c => is_arrb st v && conv_okb c
+  | OSlice v _ _ _ => is_arrb st v
+  | OAssSlice v _ _ _ _ src => is_arrb st v && source_okb src
+  | OAdd _ _ | OSubInt _ _ | OPtrSub _ _ | OAddressof _ _ => true
+  end.
+Fixpoint safe_runb (st : state) (ops : list op) : bool :=
+  match ops with
+  | [] => true
+  | o :: r => safe_opb st o && safe_runb (fst (step base st o)) r
+  end.
+
+Lemma conv_okb_ok : forall c, conv_okb c = true -> conv_ok c.
+Proof. intros [bs|e] H; cbn in *; [apply Z.eqb_eq; exact H|exact I]. Qed.
+
+Lemma source_okb_ok : forall v, source_okb v = true -> source_ok v.
+Proof.
+  intros [items|bs|k|] H; cbn in *; auto.
+  apply Forall_forall. intros c Hc. apply conv_okb_ok. rewrite forallb_forall in H. auto.
+Qed.
 
 Lemma view_len_small : forall nbytes cd len, view_ok nbytes cd -> c_kind cd = KArr len ->
   0 < S -> nbytes < 2 ^ 63 * Z.max S 1 -> len < 2 ^ 63.
@@ -475,10 +506,18 @@ Proof.
     apply IH in H; [rewrite Hl1 in H; exact H|lia|rewrite Hl1; nia|lia|rewrite Hl1; nia].
 Qed.
 
-Lemma view_ok_lookup : forall st k cd, inv st -> nth_error (s_views st) k = Some cd ->
-  view_ok (Z.of_nat (length (s_mem st))) cd.
+Lemma view_ok_lookup : forall st k cd len, inv st -> nth_error (s_views st) k = Some cd ->
+  c_kind cd = KArr len -> view_ok (Z.of_nat (length (s_mem st))) cd.
 Proof.
-  intros st k cd [_ [_ [_ Hv]]] H. rewrite Forall_forall in Hv. apply Hv. eapply nth_error_In; eauto.
+  intros st k cd len [_ [_ [_ Hv]]] H Hk. rewrite Forall_forall in Hv.
+  specialize (Hv cd (nth_error_In _ _ H)). unfold view_inv in Hv. rewrite Hk in Hv. exact Hv.
+Qed.
+
+Lemma is_arrb_kind : forall st v cd, is_arrb st v = true -> nth_error (s_views st) v = Some cd ->
+  exists len, c_kind cd = KArr len.
+Proof.
+  intros st v cd H Hv. unfold is_arrb in H. rewrite Hv in H.
+  destruct (c_kind cd) as [len|o]; [eexists; reflexivity|discriminate].
 Qed.
 
 Lemma ass_slice_ok : forall st cd a b hs ic v st' e,
@@ -507,10 +546,11 @@ Proof.
       by (apply inside_iff; nia).
     destruct (mwrite_inside _ _ _ _ Hin) as [m1 [Hw1 Hl1]]. rewrite Hw1 in H.
     inversion H; subst st' e; clear H. cbn [s_mem s_views s_escaped]. auto.
-  - (* an array cdata *)
+  - (* a cdata source: an array view (a pointer is not iterable: TypeError) *)
     destruct (nth_error (s_views st) k) as [src|] eqn:Ek; [|inversion H; subst; auto].
-    pose proof (view_ok_lookup _ _ _ Hinv Ek) as [slen [Hsk [Hss [Hsl [Hslo Hshi]]]]].
-    rewrite Hsk in H.
+    destruct (c_kind src) as [slen|ow] eqn:Hsk; [|inversion H; subst; auto].
+    pose proof (view_ok_lookup _ _ _ _ Hinv Ek Hsk) as [slen' [Hsk' [Hss [Hsl [Hslo Hshi]]]]].
+    rewrite Hsk in Hsk'. inversion Hsk'; subst slen'.
     destruct (Z.eqb_spec slen n) as [En|En].
     + subst slen.
       assert (inside base (s_mem st) (c_data src) (S * n) = true) as Hin by (apply inside_iff; nia).
@@ -528,18 +568,44 @@ Proof.
   - inversion H; subst; auto.
 Qed.
 
-(* one step of an array-view operation: the invariant, the size of the memory and the escape flag
-   are preserved; a new view (if any) is an array view inside the base allocation *)
-Lemma step_ok : forall st o st' out, inv st -> slice_op o -> step base st o = (st', out) ->
+(* a new pointer view never disturbs the invariant *)
+Lemma push_pointer_ok : forall st r st' out, inv st ->
+  (forall cd, r = Ok cd -> exists o, c_kind cd = KPtr o) ->
+  of_cd st r = (st', out) ->
+  inv st' /\ s_escaped st' = s_escaped st /\ length (s_mem st') = length (s_mem st).
+Proof.
+  intros st r st' out Hinv Hk H. destruct Hinv as [Hb [Hn [Hsz Hv]]].
+  destruct r as [cd|e]; cbn [of_cd push] in H; inversion H; subst st' out; clear H;
+    cbn [s_mem s_views s_escaped]; repeat split; auto.
+  apply Forall_app. split; [assumption|]. constructor; [|constructor].
+  destruct (Hk cd eq_refl) as [o Ho]. unfold view_inv. rewrite Ho. exact I.
+Qed.
+
+Lemma add_or_sub_kind : forall cd w sg q, add_or_sub cd w sg = Ok q -> exists o, c_kind q = KPtr o.
+Proof.
+  intros cd w sg q H. unfold add_or_sub in H. destruct (negb (ssize_ok w)); [discriminate|].
+  destruct (if c_isz cd <? 0 then if c_voidp cd then Some 1 else None else Some (c_isz cd));
+    [|discriminate]. inversion H; subst. eexists; reflexivity.
+Qed.
+
+Lemma addressof_kind : forall cd i q, addressof_index cd i = Ok q -> exists o, c_kind q = KPtr o.
+Proof.
+  intros cd i q H. unfold addressof_index in H.
+  destruct (typeoffsetof_index (c_isz cd) i); [|discriminate]. inversion H; subst. eexists; reflexivity.
+Qed.
+
+(* one step: the invariant, the size of the memory and the escape flag are preserved *)
+Lemma step_ok : forall st o st' out, inv st -> safe_opb st o = true -> step base st o = (st', out) ->
   inv st' /\ s_escaped st' = s_escaped st /\ length (s_mem st') = length (s_mem st).
 Proof.
   intros st o st' out Hinv Hop H.
   pose proof Hinv as [Hb [Hn [Hsz Hviews]]].
-  destruct o as [v i|v i c|v a b hs|v a b hs ic src| | | | ]; cbn [slice_op] in Hop; try contradiction;
+  destruct o as [v i|v i c|v a b hs|v a b hs ic src|v w|v w|v w|v i]; cbn [safe_opb] in Hop;
     cbn [step] in H.
   - (* read *)
     destruct (nth_error (s_views st) v) as [cd|] eqn:Ev; [|inversion H; subst; auto].
-    pose proof (view_ok_lookup _ _ _ Hinv Ev) as Hcd.
+    destruct (is_arrb_kind _ _ _ Hop Ev) as [len0 Hk0].
+    pose proof (view_ok_lookup _ _ _ _ Hinv Ev Hk0) as Hcd.
     destruct (get_indexed_ptr cd i) as [p|e] eqn:Eg; [|inversion H; subst; auto].
     destruct (index_inside _ _ _ _ Hb Hn Hcd Eg) as [Hp [Hlo Hhi]].
     pose proof Hcd as [len [_ [Hs _]]]. rewrite Hs in H.
@@ -547,18 +613,21 @@ Proof.
     destruct (mread_inside _ _ _ _ S_nonneg Hin) as [bs [Hr _]]. rewrite Hr in H.
     inversion H; subst; auto.
   - (* write *)
+    apply andb_prop in Hop. destruct Hop as [Harr Hc]. apply conv_okb_ok in Hc.
     destruct (nth_error (s_views st) v) as [cd|] eqn:Ev; [|inversion H; subst; auto].
-    pose proof (view_ok_lookup _ _ _ Hinv Ev) as Hcd.
+    destruct (is_arrb_kind _ _ _ Harr Ev) as [len0 Hk0].
+    pose proof (view_ok_lookup _ _ _ _ Hinv Ev Hk0) as Hcd.
     destruct (get_indexed_ptr cd i) as [p|e] eqn:Eg; [|inversion H; subst; auto].
     destruct (index_inside _ _ _ _ Hb Hn Hcd Eg) as [Hp [Hlo Hhi]].
-    destruct c as [bs|e]; [|inversion H; subst; auto]. cbn in Hop.
+    destruct c as [bs|e]; [|inversion H; subst; auto]. cbn in Hc.
     assert (inside base (s_mem st) p (Z.of_nat (length bs)) = true) as Hin by (apply inside_iff; lia).
     destruct (mwrite_inside _ _ _ _ Hin) as [m1 [Hw Hl1]]. rewrite Hw in H.
     inversion H; subst st' out; clear H. cbn [s_mem s_views s_escaped].
     repeat split; auto; unfold inv; cbn [s_mem s_views]; rewrite Hl1; auto.
   - (* slice *)
     destruct (nth_error (s_views st) v) as [cd|] eqn:Ev; [|inversion H; subst; auto].
-    pose proof (view_ok_lookup _ _ _ Hinv Ev) as Hcd.
+    destruct (is_arrb_kind _ _ _ Hop Ev) as [len0 Hk0].
+    pose proof (view_ok_lookup _ _ _ _ Hinv Ev Hk0) as Hcd.
     unfold slice in H. destruct (getslicearg cd a b hs) as [[x n]|e] eqn:Eg;
       [|inversion H; subst; auto].
     pose proof (slice_inside _ _ _ _ _ _ Hb Hn Hcd Eg) as [Hx [Hnn [Hw [Hlo Hhi]]]]. cbn [fst snd] in *.
@@ -566,25 +635,41 @@ Proof.
     cbn [of_cd push] in H. inversion H; subst st' out; clear H. cbn [s_mem s_views s_escaped].
     repeat split; auto. unfold inv; cbn [s_mem s_views]. repeat split; auto.
     apply Forall_app. split; [assumption|]. constructor; [|constructor].
+    unfold view_inv. cbn [c_kind].
     exists n. cbn [c_kind c_isz c_data]. rewrite Hs, Hw. repeat split; auto; lia.
   - (* slice assignment *)
+    apply andb_prop in Hop. destruct Hop as [Harr Hsrc]. apply source_okb_ok in Hsrc.
     destruct (nth_error (s_views st) v) as [cd|] eqn:Ev; [|inversion H; subst; auto].
-    pose proof (view_ok_lookup _ _ _ Hinv Ev) as Hcd.
+    destruct (is_arrb_kind _ _ _ Harr Ev) as [len0 Hk0].
+    pose proof (view_ok_lookup _ _ _ _ Hinv Ev Hk0) as Hcd.
     destruct (ass_slice base st cd a b hs ic src) as [st1 e] eqn:Ea.
-    destruct (ass_slice_ok _ _ _ _ _ _ _ _ _ Hinv Hcd Hop Ea) as [Hl [Hvw He]].
+    destruct (ass_slice_ok _ _ _ _ _ _ _ _ _ Hinv Hcd Hsrc Ea) as [Hl [Hvw He]].
     assert (inv st1) as Hinv1.
     { unfold inv. rewrite Hl, Hvw. auto. }
     destruct e; inversion H; subst; auto.
+  - (* p + i *)
+    destruct (nth_error (s_views st) v) as [cd|] eqn:Ev; [|inversion H; subst; auto].
+    eapply push_pointer_ok; eauto. intros q Hq. eapply add_or_sub_kind; eauto.
+  - (* p - i *)
+    destruct (nth_error (s_views st) v) as [cd|] eqn:Ev; [|inversion H; subst; auto].
+    eapply push_pointer_ok; eauto. intros q Hq. eapply add_or_sub_kind; eauto.
+  - (* p - q *)
+    destruct (nth_error (s_views st) v) as [x|]; destruct (nth_error (s_views st) w) as [y|];
+      try (inversion H; subst; auto; fail).
+    destruct (ptr_sub x y); inversion H; subst; auto.
+  - (* addressof *)
+    destruct (nth_error (s_views st) v) as [cd|] eqn:Ev; [|inversion H; subst; auto].
+    eapply push_pointer_ok; eauto. intros q Hq. eapply addressof_kind; eauto.
 Qed.
 
 Theorem history_invariant : forall ops st st' outs,
-  inv st -> Forall slice_op ops -> run base st ops = (st', outs) ->
+  inv st -> safe_runb st ops = true -> run base st ops = (st', outs) ->
   inv st' /\ s_escaped st' = s_escaped st /\ length (s_mem st') = length (s_mem st).
 Proof.
   induction ops as [|o r IH]; intros st st' outs Hinv Hops H; cbn [run] in H.
   - inversion H; subst; auto.
-  - inversion Hops as [|? ? Ho Hr]; subst.
-    destruct (step base st o) as [st1 out] eqn:E1.
+  - cbn [safe_runb] in Hops. apply andb_prop in Hops. destruct Hops as [Ho Hr].
+    destruct (step base st o) as [st1 out] eqn:E1. cbn [fst] in Hr.
     destruct (run base st1 r) as [st2 outs2] eqn:E2.
     inversion H; subst st' outs; clear H.
     destruct (step_ok _ _ _ _ Hinv Ho E1) as [Hi1 [He1 Hl1]].
@@ -600,17 +685,19 @@ Lemma initial_inv : forall mem n, 0 <= n -> Z.of_nat (length mem) = n * S ->
 Proof.
   intros mem n Hn Hl Hb Hh Hs. unfold inv, initial. cbn [s_mem s_views]. rewrite Hl.
   repeat split; auto. constructor; [|constructor].
-  exists n. cbn. repeat split; auto; lia.
+  unfold view_inv. cbn [c_kind arr]. exists n. cbn. repeat split; auto; lia.
 Qed.
 
-(* every view derived from an owned array by any sequence of slices (interleaved with any reads,
-   writes and slice assignments) stays inside it, and no accepted access escapes the array *)
+(* After ANY sequence of operations — index, slice, slice assignment (from iterables, bytes or other
+   views, overlapping or not), p+i, i+p, p-i, p-q, addressof — in which memory is reached only through
+   array views (safe_runb): no accepted access touched a byte outside the owned array, the memory
+   kept its size, and every array view derived so far lies inside the base array. *)
 Theorem views_stay_inside : forall mem n ops st' outs,
   0 <= n -> Z.of_nat (length mem) = n * S -> 0 <= base -> base + n * S < 2 ^ 64 ->
   n * S < 2 ^ 63 * Z.max S 1 ->
-  Forall slice_op ops -> run base (initial mem n) ops = (st', outs) ->
+  safe_runb (initial mem n) ops = true -> run base (initial mem n) ops = (st', outs) ->
   s_escaped st' = false /\ length (s_mem st') = length mem /\
-  Forall (view_ok (n * S)) (s_views st').
+  Forall (view_inv (n * S)) (s_views st').
 Proof.
   intros mem n ops st' outs Hn Hl Hb Hh Hs Hops H.
   destruct (history_invariant ops _ _ _ (initial_inv mem n Hn Hl Hb Hh Hs) Hops H) as [Hi [He Hlen]].
@@ -654,3 +741,23 @@ Proof.
 Qed.
 
 End History.
+
+(* ffi.addressof(x, i) == x + i, both directions: whenever i*size fits a Py_ssize_t the two
+   operations return the same pointer; otherwise addressof raises OverflowError (x + i wraps) *)
+Theorem addressof_eq_add : forall cd i, 0 < c_isz cd < 2 ^ 63 -> c_voidp cd = false ->
+  ssize_ok i = true -> - 2 ^ 63 <= i * c_isz cd < 2 ^ 63 ->
+  addressof_index cd i = add_or_sub cd i 1 /\ exists q, add_or_sub cd i 1 = Ok q.
+Proof.
+  intros cd i Hs Hv Hi Hp. unfold addressof_index.
+  change (typeoffsetof_index (c_isz cd) i) with (offsetof_index (c_isz cd) i).
+  rewrite offsetof_complete by (lia || assumption).
+  rewrite add_pointer by (lia || assumption). rewrite Hv. split; [reflexivity|eexists; reflexivity].
+Qed.
+
+Theorem addressof_overflow : forall cd i, 0 < c_isz cd < 2 ^ 63 -> ssize_ok i = true ->
+  ~ (- 2 ^ 63 <= i * c_isz cd < 2 ^ 63) -> addressof_index cd i = Err OverflowError.
+Proof.
+  intros cd i Hs Hi Hp. unfold addressof_index.
+  change (typeoffsetof_index (c_isz cd) i) with (offsetof_index (c_isz cd) i).
+  rewrite offsetof_overflow by assumption. reflexivity.
+Qed.
